@@ -48,8 +48,10 @@ def _roles(ctx, fi):
     """Actual local names playing the roles line / match / announced length in IMAPClient.start (rename-invariant)."""
     from .common import pm_of
 
+    ctx.analysed(fi)
     pm = pm_of(ctx.p, fi)
-    ok = pm.has("msg = await self.reader.readuntil(self.LINE_TERMINATOR)") and pm.has("m = RE_LITERAL_STRING_START.search(msg)") and pm.has("literal_str_length = int(m.group(1))")
+    # (what the pattern is searched in is decided by R19.7, not here)
+    ok = pm.has("msg = await self.reader.readuntil(self.LINE_TERMINATOR)") and pm.has("m = RE_LITERAL_STRING_START.search(...)") and pm.has("literal_str_length = int(m.group(1))")
     ctx.require(ok, "IMAPClient.start: line read / literal detection / announced length not found")
     return {"msg": pm.name("msg"), "m": pm.name("m"), "L": pm.name("literal_str_length"), "pm": pm}
 
@@ -181,7 +183,7 @@ def r19_3(ctx):
         else:
             ctx.bad("R19.3", w.module, w.qual, norm(c, 100), "the frame header is not '{' + len(<the very payload written next>) + '}\\n'", c.lineno)
         pat = _regex_src(p, rmod)
-        ctx.require(pat, f"{rmod}.RE_LITERAL_STRING_START not a constant pattern")
+        ctx.require(pat, f"{rmod}.RE_LITERAL_STRING_START not a constant pattern", anchor=True)
         # the template "{<digits>}" before "\n" must be in the reader's language: group 1 digits-only, braces literal
         accepts = rl.group_digits_only(pat, 1) and pat.startswith("\\{") and ("\\}" in pat)
         rt = norm(r.node, 30000)
@@ -354,7 +356,7 @@ def r19_8(ctx):
     sites = [s for s in body_walk(fi.node) if isinstance(s, ast.Assign) and norm(s.targets[0]) == R["L"] and isinstance(s.value, ast.Call) and call_name(s.value) == "int"]
     ctx.floor("R19.8", len(sites), 1, "int() conversions of the announced literal count")
     pat = _regex_src(p, "server")
-    ctx.require(pat is not None, "RE_LITERAL_STRING_START not found")
+    ctx.require(pat is not None, "RE_LITERAL_STRING_START not found", anchor=True)
     try:
         width = rl.group_max_width(pat.decode("latin-1") if isinstance(pat, bytes) else pat, 1)
     except Exception:  # noqa: BLE001
@@ -387,10 +389,10 @@ def r19_8(ctx):
 
 
 def run(ctx):
-    r19_8(ctx)
-    r19_1(ctx)
-    r19_2(ctx)
-    r19_3(ctx)
-    r19_4(ctx)
-    r19_5(ctx)
-    r19_6_7(ctx)
+    ctx.do(r19_8)
+    ctx.do(r19_1)
+    ctx.do(r19_2)
+    ctx.do(r19_3)
+    ctx.do(r19_4)
+    ctx.do(r19_5)
+    ctx.do(r19_6_7)
